@@ -114,7 +114,7 @@ def main(tier=None):
     c.run_suite(Suite("decoder-correspondence", "wire", dec_ops, dec_mon, {"cases": len(dec_ops), "nontrivial": len(dec_ops), "outcomes": kinds}, resets=("dec",)))
     samples.append({"suite": "decoder-correspondence", "ops": dec_ops[:6]})
     from checks import brokerlib
-    scs = brokerlib.corpus(c.rng, ["ids-return-after-recipient-vanished", "setup-workers-survive-panics", "split-length-field-among-many", "fanout-unacked-retransmit", "same-client-id-overlapping-qos2", "suback-unwritable", "connack-unwritable"])
+    scs = brokerlib.corpus(c.rng, ["ids-return-after-recipient-vanished", "setup-workers-survive-panics", "split-length-field-among-many", "fanout-unacked-retransmit", "same-client-id-overlapping-qos2", "suback-unwritable", "connack-unwritable", "publish-workers-survive-failures", "qos2-large-ids"])
     scs += [brokerlib.gen_abandoned_exchanges(c.rng) for _ in range(3 if c.tier == "quick" else 40)]
     scs += [brokerlib.gen_answer_lost(c.rng) for _ in range(3 if c.tier == "quick" else 40)]
     scs += [brokerlib.gen_broken_recipient_qos(c.rng) for _ in range(3 if c.tier == "quick" else 40)]
